@@ -524,17 +524,30 @@ func classify(desc, output string, hang bool) (string, string) {
 }
 
 func init() {
+	nf, nt := 0, 0
+	for _, f := range FunctionNames() {
+		if f.Test {
+			nt++
+		} else {
+			nf++
+		}
+	}
 	mc.Register(&mc.Check{
 		ID:    "C04",
 		Level: "exploration",
-		Rule: "exhaustive enumeration on the real implementation: (i) every function of functions.XFUNCTIONS and test of cases.XTESTS (registries read at run time) called through XFunction.Call at every arity 0..5 under 2 environments with every tuple of the boundary alphabet (44 values at arity <= 3; quick: a 12-value core at arity 4 and 6 values at arity 5; thorough: all 44 at arity 4, the core at arity 5), each result also rendered as text and JSON; " +
-			"(ii) every operator, lookup and call form of the expression tree on every pair of alphabet values through Evaluator.Expression; (iii) every template string of length <= 6 (thorough 7) over a 12-symbol alphabet, every string of <= 4 tokens over a 31-token vocabulary, and 22 generated families of deep/long templates (<= 400 bytes), each through Evaluator.Template (with and without escaping), TemplateValue and run.EvaluateTemplate / EvaluateTemplateValue / EvaluateTemplateText of a real waiting run; " +
-			"(iv) a webhook-JSON number with a huge exponent as argument of every function and form. Every case runs in an isolated child process under a 4 GiB address-space cap and a CPU-time limit (20 s quick / 60 s thorough). " +
-			"distinct_nontrivial counts calls not rejected by the argument-count wrapper, form evaluations, and templates that contain at least one expression or identifier.",
+		Rule: fmt.Sprintf("exhaustive enumeration on the real implementation, registries read at run time (%d functions + %d router tests found): "+
+			"(i) every function of functions.XFUNCTIONS and test of cases.XTESTS called through XFunction.Call at every arity 0..5 under 2 environments with every tuple of a %d-value boundary alphabet (all values at arity <= 3; quick: a %d-value core at arity 4 and %d values at arity 5; thorough: all values at arity 4, the core at arity 5); every non-error result is also rendered as text and as JSON; "+
+			"(ii) the %d operator / lookup / call forms of the expression tree on every pair (unary: every value) through Evaluator.Expression; "+
+			"(iii) every template string of length <= 6 (thorough 7) over the %d-symbol alphabet, every string of <= %d tokens over a %d-token vocabulary inside @( ), and %d generated families of deep / long templates (<= 400 bytes), each through Evaluator.Template (with and without escaping), Evaluator.TemplateValue and run.EvaluateTemplate / EvaluateTemplateValue / EvaluateTemplateText of a real waiting run; "+
+			"(iv) a webhook-JSON number with a huge exponent as an argument of every function and form. "+
+			"Oracle: no panic (recovered and keyed by function and panic site), returns within the CPU limit, stays below the memory cap, run.EvaluateTemplate* report failure exactly when they log an error event. "+
+			"distinct_nontrivial counts calls that were not rejected by the argument-count wrapper, form evaluations, and templates that contain at least one expression or identifier (every enumerated case is distinct by construction).",
+			nf, nt, len(Alphabet), len(Core12), len(Mini6), len(Forms), len(CharAlphabet), MaxTokens, len(TokenVocab), len(StressFamilies)),
 		Assumptions: []string{
-			"small-scope: argument tuples come from the stated boundary alphabet, strings from the stated alphabets and lengths",
-			"a case (<= 400 bytes of input) that burns more than the CPU limit without returning is a hang; one that exhausts the 4 GiB cap is a crash of the host; CPU time, not wall-clock, is measured so that load from other jobs does not change verdicts",
-			"once a runaway class (function x argument-position class) is confirmed at the full limit, further cases of the same class get 0.5 s and are only counted under that class",
+			"small-scope: argument tuples come from the stated boundary alphabet, strings from the stated alphabets and lengths; operators have no registry, so the list of forms is written down in the check (a new operator must be added there)",
+			"every case runs in an isolated child process under a 4 GiB address-space cap; a case (all inputs <= 400 bytes) that burns more than 20 s (quick) / 60 s (thorough) of CPU without returning is a hang, one that exhausts the cap is a crash of the host; CPU time, not wall-clock, is measured so that load from other jobs does not change verdicts",
+			"every case first gets 0.12 s of CPU; one that needs more is re-run alone under the full limit; once a runaway class (function x argument-position class) is confirmed at the full limit, further cases of the same class that exceed 0.12 s are counted under that class's key without being re-confirmed",
+			"calls whose result is legitimately large (repeat, foreach) are judged by the same limits: producing up to the memory cap takes far less than the CPU limit",
 			"clock, UUID and random sources are owned by the harness (random draws fixed at the bottom / top of the range per environment)",
 		},
 		Run:         run,
@@ -544,7 +557,7 @@ func init() {
 		Classify:    classify,
 		HangLimit:   10 * time.Minute,
 		SingleLimit: 5 * time.Minute,
-		// generous: the targets are CPU-based (about 1 min / 12 min of CPU per core); other jobs share the machine
-		Budget: map[string]time.Duration{"quick": 20 * time.Minute, "thorough": 90 * time.Minute},
+		// generous: the targets are CPU-based (about 1 min / 15 min of CPU per core); other jobs share the machine
+		Budget: map[string]time.Duration{"quick": 25 * time.Minute, "thorough": 120 * time.Minute},
 	})
 }
